@@ -398,13 +398,15 @@ def validate_crc_rule(ctx, prog, rule="R7"):
             cont = br[1]
             b = f.blocks[cont]
             tt = b["term"]
+            # the continuation may copy the count before testing it: look at the first switch on the way
+            for _ in range(4):
+                if f.blocks[cont]["term"]["k"] == "goto":
+                    cont = f.blocks[cont]["term"]["target"]
+            tt = f.blocks[cont]["term"]
             if tt["k"] == "switch":
-                dl = op_place(tt["discr"])
-                dt = strip(Resolver(f).place(dl)) if dl else None
-                if dt and dt[0] == "binop" and dt[1] in ("Ne", "Eq") and 0 in (const_val(dt[2]), const_val(dt[3])):
-                    e = switch_edges(f, cont)
-                    exits = [s for s in set(e.values()) if s not in body]
-                    cmp0 = len(exits) >= 1
+                te = int_test_edges(f, Resolver(f), cont)
+                if te is not None and 0 in te[1]:
+                    cmp0 = te[1][0] not in body and any(s_ in body for s_ in te[2])
         buf = strip(R.operand(t["args"][1]))
         size_ok = False
         for sub in leaves(R.operand(t["args"][1])):
